@@ -67,7 +67,21 @@ func NewRequestContext(ctx context.Context, req *envoy_auth.CheckRequest) *Reque
 	// url exposed to the rules and mechanisms consists of the decoded path and the raw (escaped) path
 	// Characters, which are not valid in an escaped path, but sent as they are, are encoded, as it
 	// is done by the http based services. Otherwise, the very same request would not be seen the same way.
-	rawPath := httpx.NormalizeRawPath(req.GetAttributes().GetRequest().GetHttp().GetPath())
+	//
+	// What envoy sends as path is the request target, which includes the query. The query attribute of
+	// the check request is, according to the description of the ext_authz api, always empty.
+	target := req.GetAttributes().GetRequest().GetHttp().GetPath()
+	query := req.GetAttributes().GetRequest().GetHttp().GetQuery()
+
+	if idx := strings.IndexByte(target, '?'); idx >= 0 {
+		if len(query) == 0 {
+			query = target[idx+1:]
+		}
+
+		target = target[:idx]
+	}
+
+	rawPath := httpx.NormalizeRawPath(target)
 
 	path, err := url.PathUnescape(rawPath)
 	if err != nil {
@@ -84,7 +98,7 @@ func NewRequestContext(ctx context.Context, req *envoy_auth.CheckRequest) *Reque
 			Host:     req.GetAttributes().GetRequest().GetHttp().GetHost(),
 			Path:     path,
 			RawPath:  rawPath,
-			RawQuery: req.GetAttributes().GetRequest().GetHttp().GetQuery(),
+			RawQuery: query,
 			Fragment: req.GetAttributes().GetRequest().GetHttp().GetFragment(),
 		},
 		reqBody:         req.GetAttributes().GetRequest().GetHttp().GetBody(),
